@@ -22,6 +22,8 @@ def run_bfs(rep, exe, args, label, what, timeout=7200):
                 for k in ("states", "transitions", "unjudged", "violations"): bfs[k] = bfs.get(k, 0) + x.get(k, 0)
                 bfs["complete"] = bfs.get("complete", True) and x.get("complete", True)
                 bfs["states_by_depth"] = [a + b for a, b in zip(bfs.get("states_by_depth", []), x.get("states_by_depth", []))]
+        elif t_ == "sweep":
+            rep.add_level("length-sweep", x["cases"], x["cases"], True, 0.0, x["cases"], "every payload length 0..%d through every inserting operation (append, append_c_array, append_printf x2, prepend, insert, insert_c_array, insert_printf) on strings of 0, 1, 1022, 1023, 1024 bytes, one operation per fresh string, compared with the model" % x["max_payload"])
         elif t_ == "sample": rep.add_sample({k: v for k, v in x.items() if k != "t"})
         elif t_ == "viol":
             case = {k: v for k, v in x.items() if k not in ("t", "sig", "detail")}
